@@ -739,7 +739,9 @@ impl<Writer: Write> Mp4Writer<Writer> {
         }
 
         let mdat_size = 8u64 + total_payload_size;
-        if mdat_size > u32::MAX as u64 {
+        // Chunk offsets are 32-bit absolute file positions, so the end of the media data
+        // (ftyp + mdat) must stay addressable, not just the mdat box size.
+        if ftyp_len as u64 + mdat_size > u32::MAX as u64 {
             return Err(io::Error::new(
                 io::ErrorKind::InvalidData,
                 "MP4 MDAT box size exceeds u32::MAX",
